@@ -96,6 +96,13 @@ class OnceWalk(sgr.Walk):
                 raise Giveup("min_size and the length are compared with %s (neither >= nor <)" % rv["op"])
             if sa or sb:
                 raise Giveup("arithmetic on the size or the threshold")
+        if k == "cast":
+            a = self.operand(rv["a"])
+            if isinstance(a, tuple) and a and a[0] == "symval":
+                to = str(rv.get("to") or "")
+                if to not in ("u64", "u128", "usize"):
+                    raise Giveup("the size or the threshold is cast to %s before the comparison: above %s::MAX it is no longer the comparison of the two unsigned 64-bit quantities" % (to, to))
+                return a
         if k == "agg" and rv.get("agg") == "closure":
             fs = [self.operand(f) for f in rv["fields"]]
             return ("closure", rv["closure"], fs)
@@ -164,7 +171,7 @@ class OnceWalk(sgr.Walk):
                 try:
                     val = self.rvalue(st["rv"])
                 except Giveup as e:
-                    if "compared" in str(e) or "arithmetic" in str(e) or "call_once" in str(e):
+                    if "compared" in str(e) or "arithmetic" in str(e) or "call_once" in str(e) or "is cast to" in str(e):
                         raise
                     val = None
                 try:
